@@ -191,3 +191,21 @@ class HashRecorder:
         else:
             return builtins.hash(obj)
         return 0
+
+
+class _RangeMeta(type):
+    def __instancecheck__(cls, obj):
+        return isinstance(obj, builtins.range)
+
+    def __call__(cls, *args):
+        return builtins.range(*[concretize(a) for a in args])
+
+
+class range_pass(metaclass=_RangeMeta):
+    """drop-in for the module-level name `range`: symbolic bounds are concretised by enumerate-and-fork
+    (the builtin would read the raw digits of an int subclass)"""
+
+
+def install_range_pass(*modules):
+    for m in modules:
+        patch(m, 'range', range_pass)
